@@ -1028,6 +1028,7 @@ pub struct StepOut {
     pub pre_layout: Option<(usize, usize)>,
     pub resynced: bool,
     pub events: Vec<String>,
+    pub event_ids: Vec<u64>,
     pub post: Vec<(u64, u32)>,
 }
 
@@ -1045,8 +1046,23 @@ fn ev_kind(e: &Ev) -> String {
 
 /// report ledger events accumulated so far
 pub fn flush_events(ctx: &mut Ctx, opname: &str, n: usize, lay: &'static str, fault: Option<FpKind>) -> Vec<String> {
+    flush_events_ids(ctx, opname, n, lay, fault).into_iter().map(|x| x.0).collect()
+}
+
+/// as `flush_events`, also returning the token id each event is about
+pub fn flush_events_ids(ctx: &mut Ctx, opname: &str, n: usize, lay: &'static str, fault: Option<FpKind>) -> Vec<(String, u64)> {
     let evs = ledger_take_events();
-    let kinds: Vec<String> = evs.iter().map(ev_kind).collect();
+    let kinds: Vec<(String, u64)> = evs
+        .iter()
+        .map(|e| {
+            (
+                ev_kind(e),
+                match e {
+                    Ev::DoubleDrop(i) | Ev::StaleTouched(i, _) | Ev::GarbageTouched(i, _, _) => *i,
+                },
+            )
+        })
+        .collect();
     for e in evs {
         let prop = match (&e, fault) {
             (Ev::DoubleDrop(_), Some(FpKind::Drop)) => "C05",
@@ -1461,6 +1477,7 @@ pub fn step<const N: usize, P: Pad>(
         pre_layout,
         resynced: false,
         events: Vec::new(),
+        event_ids: Vec::new(),
         post: Vec::new(),
     };
 
@@ -1469,7 +1486,10 @@ pub fn step<const N: usize, P: Pad>(
     }
 
     let post = observe(h.buf_ref());
-    out.events.extend(flush_events(ctx, op.name(), N, lay, fkind));
+    for (k, i) in flush_events_ids(ctx, op.name(), N, lay, fkind) {
+        out.events.push(k);
+        out.event_ids.push(i);
+    }
 
     match &ret {
         Ret::Panic { injected: true, .. } => {
@@ -1552,6 +1572,8 @@ pub fn step<const N: usize, P: Pad>(
                     let prop = match op {
                         Op::PushBack | Op::PushFront | Op::TryPushBack | Op::TryPushFront => "C02",
                         Op::Drain(..) => "C09",
+                        Op::HashSelf | Op::EqSelf | Op::CmpSelf => "C13",
+                        Op::ToVec | Op::CloneBuf => "C12",
                         _ if !op.is_mutator() => "C07",
                         _ => "C01",
                     };
@@ -1560,8 +1582,12 @@ pub fn step<const N: usize, P: Pad>(
                         sig(op, N, lay, "wrong_return"),
                         format!("{:?}: {}; before={:?}; case={}", op, e, before, ctx.cur_case),
                     );
-                    if prop != "C01" {
+                    if op.is_mutator() && prop != "C01" {
                         ctx.violation("C01", sig(op, N, lay, "wrong_return"), format!("{:?}: {}", op, e));
+                    }
+                    if matches!(op, Op::ToVec) {
+                        // to_vec is also one of the views of C07
+                        ctx.violation("C07", sig(op, N, lay, "wrong_return"), format!("{:?}: {}; case={}", op, e, ctx.cur_case));
                     }
                     if matches!(op, Op::ToVec | Op::CloneBuf) {
                         ctx.violation("C12", sig(op, N, lay, "wrong_return"), format!("{:?}: {}; case={}", op, e, ctx.cur_case));
@@ -1707,7 +1733,10 @@ pub fn step<const N: usize, P: Pad>(
         }
         drop_holder(&mut sh);
     }
-    out.events.extend(flush_events(ctx, op.name(), N, lay, fkind));
+    for (k, i) in flush_events_ids(ctx, op.name(), N, lay, fkind) {
+        out.events.push(k);
+        out.event_ids.push(i);
+    }
     if matches!(op, Op::Drain(_, _, End::Drop)) && fkind.is_none() && !out.events.is_empty() {
         ctx.violation(
             "C09",
